@@ -60,6 +60,33 @@ func runC13(c map[string]interface{}) []Event {
 			e["res"] = res
 		})
 		e["inputsame"] = reflect.DeepEqual(before, p)
+	case "mpoly":
+		var mp, before geom.MultiPolygon
+		for _, p := range arr(c["polys"]) {
+			mp = append(mp, decPolygon(p, intDec))
+			before = append(before, decPolygon(p, intDec))
+		}
+		encP := func(p geom.Polygon) interface{} {
+			res := make([]interface{}, len(p))
+			for i, ring := range p {
+				res[i] = encIntPath(ring)
+			}
+			return res
+		}
+		e["solo"] = []interface{}{}
+		e["out"] = safely(func() {
+			r := mp.Simplify(tol).(geom.MultiPolygon)
+			res := make([]interface{}, len(r))
+			solo := make([]interface{}, len(mp))
+			for i, p := range r {
+				res[i] = encP(p)
+			}
+			for i, p := range mp {
+				solo[i] = encP(p.Simplify(tol).(geom.Polygon))
+			}
+			e["res"], e["solo"] = res, solo
+		})
+		e["inputsame"] = reflect.DeepEqual(before, mp)
 	case "multi":
 		var ml geom.MultiLineString
 		for _, l := range arr(c["lines"]) {
